@@ -443,6 +443,63 @@ fn upload(dir: &PathBuf, len: usize, ws: u16, rep: u8, fault: Fault, verdict: &m
     }
 }
 
+/// C09: the transfer uses exactly the negotiated block length and blocks per window, also for large products
+struct SilentPeer {
+    sent: Arc<Mutex<Vec<Packet>>>,
+}
+impl Socket for SilentPeer {
+    fn send(&self, packet: &Packet) -> Result<(), Box<dyn Error>> {
+        self.sent.lock().unwrap().push(clone_packet(packet));
+        Ok(())
+    }
+    fn send_to(&self, packet: &Packet, _to: &SocketAddr) -> Result<(), Box<dyn Error>> {
+        self.send(packet)
+    }
+    fn recv_with_size(&self, _size: usize) -> Result<Packet, Box<dyn Error>> {
+        std::thread::sleep(TMO + Duration::from_millis(1));
+        Err("timeout".into())
+    }
+    fn recv_from_with_size(&self, size: usize) -> Result<(Packet, SocketAddr), Box<dyn Error>> {
+        Ok((self.recv_with_size(size)?, self.remote_addr()?))
+    }
+    fn remote_addr(&self) -> Result<SocketAddr, Box<dyn Error>> {
+        Ok("127.0.0.1:50002".parse().unwrap())
+    }
+    fn set_read_timeout(&mut self, _d: Duration) -> Result<(), Box<dyn Error>> {
+        Ok(())
+    }
+    fn set_write_timeout(&mut self, _d: Duration) -> Result<(), Box<dyn Error>> {
+        Ok(())
+    }
+}
+
+fn negotiated_settings(dir: &PathBuf, verdict: &mut Verdict) {
+    for (blk, ws) in [(8usize, 3u16), (512, 16), (1468, 715), (32768, 40), (65464, 20)] {
+        let path = dir.join("big.bin");
+        let len = blk * (ws as usize + 1) + 5;
+        std::fs::write(&path, vec![0x5au8; len]).unwrap();
+        let sent = Arc::new(Mutex::new(Vec::new()));
+        let w = Worker::new(Box::new(SilentPeer { sent: sent.clone() }), path.clone(), true, blk, TMO, ws, 1);
+        let _ = w.send(false).unwrap().join();
+        let sent = sent.lock().unwrap();
+        // the first transmission of the first window: everything before block 1 is repeated
+        let mut first: Vec<(u16, usize)> = Vec::new();
+        for p in sent.iter() {
+            if let Packet::Data { block_num, data } = p {
+                if *block_num == 1 && !first.is_empty() {
+                    break;
+                }
+                first.push((*block_num, data.len()));
+            }
+        }
+        let ok = first.len() == ws as usize && first.iter().enumerate().all(|(i, (n, l))| *n as usize == i + 1 && *l == blk);
+        if !ok {
+            verdict.violations.push(("C09", format!("sender with negotiated blksize={blk} windowsize={ws}: the first window on the wire has {} blocks (lengths {:?}...), expected {ws} blocks of {blk} bytes",
+                first.len(), first.iter().take(3).map(|x| x.1).collect::<Vec<_>>())));
+        }
+    }
+}
+
 fn main() {
     let args: Vec<String> = std::env::args().collect();
     let which = args.get(1).cloned().unwrap_or_else(|| "all".into());
@@ -495,6 +552,9 @@ fn main() {
             runs += 1;
             upload(&dir, len, 4, 1, f, &mut verdict, "receiver-wrap");
         }
+    }
+    if which == "all" || which == "C09" {
+        negotiated_settings(&dir, &mut verdict);
     }
     let _ = std::fs::remove_dir_all(&dir);
     let mut found = false;
